@@ -36,38 +36,88 @@ class TrackedUUID(uuid.UUID):
     """An unregistered subclass of a registered third-party type (tag: __main__.TrackedUUID)."""
 
 
-tags += ["__main__.TrackedUUID", "__main__.MISSING", "__main__.rep", "builtins.None", "builtins.Ellipsis", "builtins.True"]
+class Thing(js.SubclassJSONSerializer):
+    """a module-level serialisable class: the legitimate hand-over target, and a RECEIVER of from_json"""
+
+    def __init__(self, v=None):
+        self.v = v
+
+    def to_json(self):
+        return {**super().to_json(), "v": self.v}
+
+    @classmethod
+    def _from_json(cls, data, **kwargs):
+        return cls(data.get("v"))
+
+
+class SubThing(Thing):
+    pass
+
+
+def _classes_the_module_does_not_expose():
+    """serialisable classes that EXIST (they were created, they are loaded) but that their module does not expose under their name"""
+    class Reading(Thing):          # defined inside a function: the module has no attribute `Reading`
+        pass
+
+    class Marker(Thing):           # the module attribute of that name is something else (a string)
+        pass
+    return Reading, Marker
+
+
+_HIDDEN_READING, _HIDDEN_MARKER = _classes_the_module_does_not_expose()
+Marker = "not a class"
+
+
+class Gone(Thing):                 # created at module level, then removed from the module
+    pass
+
+
+_GONE = Gone
+del Gone
+tags += ["__main__.TrackedUUID", "__main__.MISSING", "__main__.rep", "builtins.None", "builtins.Ellipsis", "builtins.True",
+         "__main__.Thing", "__main__.SubThing", "__main__.Reading", "__main__.Marker", "__main__.Gone", "__main__._HIDDEN_READING", "__main__._GONE"]
 MISSING = object()
-for t in [MISSING] + tags:
+RECEIVERS = [("module-level from_json", js.from_json), ("SubclassJSONSerializer.from_json", js.SubclassJSONSerializer.from_json),
+             ("Thing.from_json", Thing.from_json), ("SubThing.from_json", SubThing.from_json), ("a hidden class .from_json", _HIDDEN_READING.from_json)]
+
+
+def resolve_like_the_documentation(t):
+    """(target, why-not): the object the tag names, found by importing the module part and reading the attribute"""
+    try:
+        mod, _, name = t.rpartition(".")
+        return getattr(importlib.import_module(mod), name), None
+    except Exception as e:
+        return None, e
+
+
+for (recv_name, recv), t in itertools.product(RECEIVERS, [MISSING] + tags):
     data = {"payload": 1} if t is MISSING else {js.JSON_TYPE_NAME: t, "value": "12345678-1234-5678-1234-567812345678"}
-    st, r = guarded(lambda: js.from_json(data))
-    st_again, r_again = guarded(lambda: js.from_json(dict(data)))
+    st, r = guarded(lambda: recv(data))
+    st_again, r_again = guarded(lambda: recv(dict(data)))
+    rk = "" if recv_name.startswith("module") else f"[{recv_name}]"
     if (st, type(r)) != (st_again, type(r_again)):
-        rep.fail(f"unstable::{type(r_again).__name__}", f"tag {t!r}: first call {st} {type(r).__name__}, second call {st_again} {type(r_again).__name__}: {r_again}", {"tag": repr(t)})
-    rep.case(repr(t), sample={"tag": repr(t), "outcome": type(r).__name__ if st == "exc" else "returned " + type(r).__name__})
-    def hands_over(t):
-        try:
-            mod, _, name = t.rpartition(".")
-            target = getattr(importlib.import_module(mod), name)
-            return isinstance(target, type) and (issubclass(target, js.SubclassJSONSerializer) or bool(js.JSONSerializableTypeRegistry().get_deserializer(target)))
-        except Exception:
-            return False
-    if st == "exc" and not isinstance(r, js.JSONSerializationError) and isinstance(t, str) and hands_over(t):
+        rep.fail(f"unstable::{type(r_again).__name__}{rk}", f"tag {t!r}: first call {st} {type(r).__name__}, second call {st_again} {type(r_again).__name__}: {r_again}", {"tag": repr(t), "receiver": recv_name})
+    rep.case((recv_name, repr(t)), sample={"tag": repr(t), "receiver": recv_name, "outcome": type(r).__name__ if st == "exc" else "returned " + type(r).__name__})
+    target, why_not = resolve_like_the_documentation(t) if isinstance(t, str) else (None, "not a string")
+    reg = js.JSONSerializableTypeRegistry()
+    deserialisable = isinstance(target, type) and (issubclass(target, js.SubclassJSONSerializer) or target in reg._deserializers)
+    if st == "exc" and not isinstance(r, js.JSONSerializationError) and deserialisable:
         pass   # raised by the class's own _from_json / registered deserialiser after a legitimate hand-over: outside C19
     elif st == "exc" and not isinstance(r, js.JSONSerializationError):
-        rep.fail(f"escape::{type(r).__name__}", f"tag {t!r}: {type(r).__name__}: {r}", {"tag": repr(t)})
+        rep.fail(f"escape::{type(r).__name__}{rk}", f"{recv_name}, tag {t!r}: {type(r).__name__}: {r}", {"tag": repr(t), "receiver": recv_name})
     elif st == "ok":
-        # a value may only come from a SubclassJSONSerializer subclass or a registered deserialiser
-        mod, _, name = t.rpartition(".")
-        target = getattr(importlib.import_module(mod), name)
-        reg = js.JSONSerializableTypeRegistry()
-        if not (isinstance(target, type) and (issubclass(target, js.SubclassJSONSerializer) or target in reg._deserializers)):
-            rep.fail("wrong-object", f"tag {t!r} returned {r!r}", {"tag": repr(t)})
-        elif not isinstance(r, target):
-            rep.fail("wrong-object", f"tag {t!r} returned an object of {type(r).__name__}", {"tag": repr(t)})
+        # a value may only come from a SubclassJSONSerializer subclass or a registered deserialiser THAT THE TAG NAMES
+        if not deserialisable:
+            rep.fail(f"wrong-object{rk}", f"{recv_name}, tag {t!r} (names {'nothing: ' + repr(why_not) if target is None else repr(target)}) returned {r!r}", {"tag": repr(t), "receiver": recv_name})
+        elif type(r) is not target:
+            rep.fail(f"wrong-object{rk}", f"{recv_name}, tag {t!r} returned an object of {type(r).__name__}", {"tag": repr(t), "receiver": recv_name})
     elif t is MISSING or t is None:
         if type(r) is not js.MissingTypeError:
-            rep.fail("mapping::missing", f"tag {t!r}: {type(r).__name__}", {"tag": repr(t)})
+            rep.fail(f"mapping::missing{rk}", f"{recv_name}, tag {t!r}: {type(r).__name__}", {"tag": repr(t), "receiver": recv_name})
+    elif isinstance(t, str) and target is None and isinstance(why_not, AttributeError) and type(r) is not js.ClassNotFoundError:
+        rep.fail(f"mapping::class-not-found{rk}", f"{recv_name}, tag {t!r} (the module has no such attribute): {type(r).__name__}", {"tag": repr(t), "receiver": recv_name})
+    elif deserialisable:
+        rep.fail(f"rejected-a-deserialisable-class{rk}", f"{recv_name}, tag {t!r}: {type(r).__name__}: {r}", {"tag": repr(t), "receiver": recv_name})
 
 # ---- assumed builtin contracts (ASSUMPTIONS of contracts/C19.py)
 def assume(name, ok):
